@@ -1,4 +1,6 @@
-(** Model of the marker supply / lifecycle machinery for ONE denom (property C05).
+(** Model of the marker supply / lifecycle machinery as ONE denom sees it (property C05).
+    The world of several denoms / markers sharing one bank is [PV.Marker.MultiLifecycle]; it runs
+    the operations of this file on the view of the denom concerned.
 
     Go sources transcribed (branch for branch; a failing or panicking handler = [None] = the
     transaction is rolled back and the old state is kept):
@@ -32,19 +34,23 @@
     the model has vesting, holds, quarantine or sanctions.
 
     Scope: the state is what ONE denom sees: its marker record (or none), the bank's balances and
-    supply of that denom, the two module parameters read by the handlers, and a count [gen] of
+    supply of that denom, the two module parameters read by the handlers, a count [gen] of
     markers of this denom removed so far (a marker's lifetime ends when the begin-blocker removes
-    it).  Addresses are interned: [ESCROW] is the marker's own account (address derived from the
-    denom), [GOV] the governance module account (the `authority`).  Other denoms held by the marker
-    account are not modelled (DeleteMarker additionally requires them to be gone).  Accounts are
-    assumed to have signed at least one tx (canForceTransferFrom is true for them).
+    it) and [esc], the address of the marker's own account (derived from the denom, so constant).
+    Addresses are interned; [GOV] is the governance module account (the `authority`).  What depends
+    on OTHER denoms (coins of other denoms in the marker account at DeleteMarker, deposit access on
+    another marker when coins are sent into its account, authz grants) is decided in
+    MultiLifecycle.v: it adds guards in front of these operations, supplies the authz answer [az]
+    of [OTransfer], and uses [OMove] for coins of this denom that leave ANOTHER marker's account
+    by that marker's withdraw routes.  Accounts are assumed to have signed at least one tx
+    (canForceTransferFrom is true for them).
+    x/marker/keeper/msg_server.go UpdateParams = [OSetParams] (authority test, then SetParams).
     No proofs in this file. *)
 From Coq Require Import ZArith NArith List Bool.
 Import ListNotations.
 Open Scope Z_scope.
 
 Definition addr := N.
-Definition ESCROW : addr := 0%N.
 Definition GOV : addr := 100%N.
 
 (** ** Access rights: a bit mask, bit i = Access enum value i+1 (accessgrant.proto). *)
@@ -81,7 +87,8 @@ Record state := {
   supply : Z;                        (* bank total supply of the denom *)
   maxsupply : Z;                     (* params.MaxSupply *)
   govparam : bool;                   (* params.EnableGovernance *)
-  gen : N                            (* markers of this denom removed so far *)
+  gen : N;                           (* markers of this denom removed so far *)
+  esc : addr                         (* the marker account's address (MarkerAddress(denom)) *)
 }.
 
 (** ** Balances: an association list; the balance of [a] is the sum of the entries keyed [a]
@@ -96,9 +103,13 @@ Definition set (m : list (addr * Z)) (a : addr) (v : Z) : list (addr * Z) :=
 Definition total (m : list (addr * Z)) : Z := fold_right (fun e acc => snd e + acc) 0 m.
 
 Definition set_mk (s : state) (m : option marker) : state :=
-  {| mk := m; bal := bal s; supply := supply s; maxsupply := maxsupply s; govparam := govparam s; gen := gen s |}.
+  {| mk := m; bal := bal s; supply := supply s; maxsupply := maxsupply s; govparam := govparam s; gen := gen s;
+     esc := esc s |}.
 Definition set_bank (s : state) (b : list (addr * Z)) (sup : Z) : state :=
-  {| mk := mk s; bal := b; supply := sup; maxsupply := maxsupply s; govparam := govparam s; gen := gen s |}.
+  {| mk := mk s; bal := b; supply := sup; maxsupply := maxsupply s; govparam := govparam s; gen := gen s;
+     esc := esc s |}.
+Definition set_params (s : state) (mx : Z) (gv : bool) : state :=
+  {| mk := mk s; bal := bal s; supply := supply s; maxsupply := mx; govparam := gv; gen := gen s; esc := esc s |}.
 
 Definition with_status (m : marker) (x : status) : marker :=   (* SetStatus *)
   {| st := x; msupply := msupply m; fixed := fixed m; govctl := govctl m; ty := ty m; forced := forced m;
@@ -118,10 +129,10 @@ Notation "'guard' b ;; k" := (if b then k else None) (at level 61, b at next lev
 
 (** ** Bank primitives *)
 Definition mint_escrow (s : state) (d : Z) : state :=
-  set_bank s (set (bal s) ESCROW (get (bal s) ESCROW + d)) (supply s + d).
+  set_bank s (set (bal s) (esc s) (get (bal s) (esc s) + d)) (supply s + d).
 Definition burn_escrow (s : state) (d : Z) : option state :=
-  guard (d <=? get (bal s) ESCROW) ;;
-  Some (set_bank s (set (bal s) ESCROW (get (bal s) ESCROW - d)) (supply s - d)).
+  guard (d <=? get (bal s) (esc s)) ;;
+  Some (set_bank s (set (bal s) (esc s) (get (bal s) (esc s) - d)) (supply s - d)).
 Definition move (s : state) (from to : addr) (amt : Z) : option state :=
   guard (amt <=? get (bal s) from) ;;
   let b1 := set (bal s) from (get (bal s) from - amt) in
@@ -151,7 +162,7 @@ Definition grant (l : list (addr * rights)) (a : addr) (rs : rights) : list (add
 (** MarkerAccount.Validate, the clauses that can depend on modelled fields. *)
 Definition rights_ok_for (t : mtype) (rs : rights) : bool :=
   (N.ltb rs 256) && (is_restricted t || (negb (has_bit rs RTransfer) && negb (has_bit rs RForce))).
-Definition validate (m : marker) : bool :=
+Definition validate_at (ESCROW : addr) (m : marker) : bool :=
   (0 <=? msupply m) &&
   negb ((rank (st m) <? 3) && (match manager m with None => true | Some _ => false end) && negb (any_with m RAdmin)) &&
   negb (status_eqb (st m) Finalized && negb (any_with m RMint) && (msupply m =? 0)) &&
@@ -170,16 +181,16 @@ Definition increase_supply (s : state) (m : marker) (amt : Z) : option state :=
   guard (tot <=? maxsupply s) ;;
   if fixed m then
     let m' := with_supply m tot in
-    guard (validate m') ;; adjust (set_mk s (Some m')) tot
+    guard (validate_at (esc s) m') ;; adjust (set_mk s (Some m')) tot
   else adjust s tot.
 
 Definition decrease_supply (s : state) (m : marker) (amt : Z) : option state :=
   guard (amt <=? supply s) ;;
-  guard (amt <=? get (bal s) ESCROW) ;;
+  guard (amt <=? get (bal s) (esc s)) ;;
   let rest := supply s - amt in
   if fixed m then
     let m' := with_supply m rest in
-    guard (validate m') ;; adjust (set_mk s (Some m')) rest
+    guard (validate_at (esc s) m') ;; adjust (set_mk s (Some m')) rest
   else adjust s rest.
 
 (** ** Operations *)
@@ -195,7 +206,10 @@ Inductive op :=
 | OWithdraw (caller to : addr) (amt : Z)
 | OCancel (caller : addr)
 | ODelete (caller : addr)
-| OTransfer (admin from to : addr) (amt : Z)
+| OTransfer (admin from to : addr) (amt : Z) (az : bool)
+       (* MsgTransferRequest; [az] = "an authz grant from->admin accepts this transfer" (computed
+          from the grant store in MultiLifecycle.v; only read when admin <> from and the admin
+          cannot force the transfer) *)
 | OGrant (caller grantee : addr) (rs : rights)                      (* MsgAddAccessRequest, one grant *)
 | ORevoke (caller a : addr)                                         (* MsgDeleteAccessRequest *)
 | OGovSupplyIncrease (authority : addr) (amt : Z) (target : option addr)
@@ -205,21 +219,26 @@ Inductive op :=
 | OGovSetAdmin (authority grantee : addr) (rs : rights)
 | OGovRemoveAdmin (authority a : addr)
 | OSend (from to : addr) (amt : Z)                                  (* bank MsgSend of this denom *)
+| OMove (from to : addr) (amt : Z)
+       (* coins of this denom moved by a route authorised on ANOTHER marker: MsgWithdrawRequest /
+          WithdrawEscrow proposal on the marker whose account [from] is (SendCoins under the marker
+          bypass: this denom's own marker is not consulted) *)
+| OSetParams (authority : addr) (mx : Z) (gv : bool)                (* MsgUpdateParamsRequest *)
 | OBeginBlock.
 
 (** AddMarkerAccount: the record validates and nothing is registered at the address yet. *)
 Definition add_account (s : state) (m : marker) : option state :=
-  guard (validate m) ;;
+  guard (validate_at (esc s) m) ;;
   match mk s with Some _ => None | None => Some (set_mk s (Some m)) end.
 
 (** FinalizeMarker / ActivateMarker for the current record [m]. *)
 Definition finalize (s : state) (m : marker) (caller : addr) : option state :=
   guard (is_manager m caller) ;;
   guard (status_eqb (st m) Proposed) ;;
-  guard (validate m) ;;
+  guard (validate_at (esc s) m) ;;
   guard (supply s <=? msupply m) ;;
   let m' := with_status m Finalized in
-  guard (validate m') ;; Some (set_mk s (Some m')).
+  guard (validate_at (esc s) m') ;; Some (set_mk s (Some m')).
 
 Definition activate (s : state) (m : marker) (caller : addr) : option state :=
   guard (is_manager m caller) ;;
@@ -227,7 +246,7 @@ Definition activate (s : state) (m : marker) (caller : addr) : option state :=
   guard (supply s <=? msupply m) ;;
   s1 <- adjust s (msupply m) ;;
   let m' := with_status m Active in
-  guard (validate m') ;; Some (set_mk s1 (Some m')).
+  guard (validate_at (esc s) m') ;; Some (set_mk s1 (Some m')).
 
 (** AddAccess / RemoveAccess authorisation. *)
 Definition may_change_access (s : state) (m : marker) (caller : addr) : bool :=
@@ -244,8 +263,8 @@ Definition send_allowed (s : state) (from to : addr) : bool :=
   match mk s with
   | None => true
   | Some m =>
-      negb (N.eqb from ESCROW) &&
-      (negb (N.eqb to ESCROW && is_restricted (ty m)) || has m from RDeposit) &&
+      negb (N.eqb from (esc s)) &&
+      (negb (N.eqb to (esc s) && is_restricted (ty m)) || has m from RDeposit) &&
       status_eqb (st m) Active &&
       (negb (is_restricted (ty m)) || has m from RTransfer)
   end.
@@ -284,7 +303,7 @@ Definition step_opt (s : state) (o : op) : option state :=
       match st m with
       | Proposed | Finalized =>
           let m' := with_supply m (msupply m + amt) in
-          guard (validate m') ;; Some (set_mk s (Some m'))
+          guard (validate_at (esc s) m') ;; Some (set_mk s (Some m'))
       | Active => increase_supply s m amt
       | _ => None
       end
@@ -296,7 +315,7 @@ Definition step_opt (s : state) (o : op) : option state :=
       | Proposed | Finalized =>
           guard (amt <=? msupply m) ;;                 (* Coin.Sub panics below zero *)
           let m' := with_supply m (msupply m - amt) in
-          guard (validate m') ;; Some (set_mk s (Some m'))
+          guard (validate_at (esc s) m') ;; Some (set_mk s (Some m'))
       | Active => decrease_supply s m amt
       | _ => None
       end
@@ -304,21 +323,21 @@ Definition step_opt (s : state) (o : op) : option state :=
       guard (0 <? amt) ;;
       m <- mk s ;;
       guard (has m caller RWithdraw) ;;
-      guard (negb (N.eqb to ESCROW && is_restricted (ty m)) || has m caller RDeposit) ;;
+      guard (negb (N.eqb to (esc s) && is_restricted (ty m)) || has m caller RDeposit) ;;
       guard (status_eqb (st m) Active) ;;
-      move s ESCROW to amt
+      move s (esc s) to amt
   | OCancel caller =>
       m <- mk s ;;
       match st m with
       | Finalized | Active =>
           guard (has m caller RDelete) ;;
-          guard (supply s - get (bal s) ESCROW <=? 0) ;;
+          guard (supply s - get (bal s) (esc s) <=? 0) ;;
           let m' := with_status m Cancelled in
-          guard (validate m') ;; Some (set_mk s (Some m'))
+          guard (validate_at (esc s) m') ;; Some (set_mk s (Some m'))
       | Proposed =>
           guard (has m caller RDelete || is_manager m caller) ;;
           let m' := with_status m Cancelled in
-          guard (validate m') ;; Some (set_mk s (Some m'))
+          guard (validate_at (esc s) m') ;; Some (set_mk s (Some m'))
       | Cancelled => Some s
       | Destroyed => None
       end
@@ -326,31 +345,31 @@ Definition step_opt (s : state) (o : op) : option state :=
       m <- mk s ;;
       guard (has m caller RDelete || is_manager m caller) ;;
       guard (status_eqb (st m) Cancelled) ;;
-      guard (supply s - get (bal s) ESCROW <=? 0) ;;
+      guard (supply s - get (bal s) (esc s) <=? 0) ;;
       s1 <- decrease_supply s m (supply s) ;;
-      guard (get (bal s1) ESCROW =? 0) ;;
+      guard (get (bal s1) (esc s) =? 0) ;;
       m1 <- mk s1 ;;
       let m' := with_status m1 Destroyed in
-      guard (validate m') ;; Some (set_mk s1 (Some m'))
-  | OTransfer admin from to amt =>
+      guard (validate_at (esc s) m') ;; Some (set_mk s1 (Some m'))
+  | OTransfer admin from to amt az =>
       guard (0 <=? amt) ;;
       m <- mk s ;;
       guard (status_eqb (st m) Active) ;;
       guard (is_restricted (ty m)) ;;
       guard (has m admin RTransfer || has m admin RForce) ;;
-      guard (negb (N.eqb to ESCROW) || has m admin RDeposit) ;;
-      guard (N.eqb admin from || (forced m && has m admin RForce)) ;;   (* else authz: none in the model *)
+      guard (negb (N.eqb to (esc s)) || has m admin RDeposit) ;;
+      guard (N.eqb admin from || (forced m && has m admin RForce) || az) ;;   (* else the authz grant decides *)
       move s from to amt
   | OGrant caller grantee rs =>
       m <- mk s ;;
       guard (may_change_access s m caller) ;;
       let m' := with_access m (grant (access m) grantee rs) in
-      guard (validate m') ;; Some (set_mk s (Some m'))
+      guard (validate_at (esc s) m') ;; Some (set_mk s (Some m'))
   | ORevoke caller a =>
       m <- mk s ;;
       guard (may_change_access s m caller) ;;
       let m' := with_access m (revoke (access m) a) in
-      guard (validate m') ;; Some (set_mk s (Some m'))
+      guard (validate_at (esc s) m') ;; Some (set_mk s (Some m'))
   | OGovSupplyIncrease authority amt target =>
       guard (N.eqb authority GOV) ;;
       guard (0 <=? amt) ;;
@@ -359,11 +378,11 @@ Definition step_opt (s : state) (o : op) : option state :=
       match st m with
       | Proposed | Finalized =>
           let m' := with_supply m (msupply m + amt) in
-          guard (validate m') ;; Some (set_mk s (Some m'))
+          guard (validate_at (esc s) m') ;; Some (set_mk s (Some m'))
       | Active =>
           s1 <- increase_supply s m amt ;;
           match target with
-          | Some t => move s1 ESCROW t amt
+          | Some t => move s1 (esc s) t amt
           | None => Some s1
           end
       | _ => None
@@ -385,29 +404,35 @@ Definition step_opt (s : state) (o : op) : option state :=
              | _ => Some s
              end) ;;
       let m' := with_status m newst in
-      guard (validate m') ;; Some (set_mk s1 (Some m'))
+      guard (validate_at (esc s) m') ;; Some (set_mk s1 (Some m'))
   | OGovWithdrawEscrow authority to amt =>
       guard (N.eqb authority GOV) ;;
       guard (0 <? amt) ;;
       m <- mk s ;;
       guard (govctl m) ;;
-      move s ESCROW to amt
+      move s (esc s) to amt
   | OGovSetAdmin authority grantee rs =>
       guard (N.eqb authority GOV) ;;
       m <- mk s ;;
       guard (govctl m) ;;
       let m' := with_access m (grant (access m) grantee rs) in
-      guard (validate m') ;; Some (set_mk s (Some m'))
+      guard (validate_at (esc s) m') ;; Some (set_mk s (Some m'))
   | OGovRemoveAdmin authority a =>
       guard (N.eqb authority GOV) ;;
       m <- mk s ;;
       guard (govctl m) ;;
       let m' := with_access m (revoke (access m) a) in
-      guard (validate m') ;; Some (set_mk s (Some m'))
+      guard (validate_at (esc s) m') ;; Some (set_mk s (Some m'))
   | OSend from to amt =>
       guard (0 <? amt) ;;
       guard (send_allowed s from to) ;;
       move s from to amt
+  | OMove from to amt =>
+      guard (0 <? amt) ;;
+      move s from to amt
+  | OSetParams authority mx gv =>
+      guard (N.eqb authority GOV) ;;
+      Some (set_params s mx gv)
   | OBeginBlock =>
       match mk s with
       | None => Some s
@@ -416,7 +441,7 @@ Definition step_opt (s : state) (o : op) : option state :=
                  then adjust s (msupply m) else Some s) ;;
           if status_eqb (st m) Destroyed
           then Some {| mk := None; bal := bal s1; supply := supply s1; maxsupply := maxsupply s1;
-                       govparam := govparam s1; gen := N.succ (gen s1) |}
+                       govparam := govparam s1; gen := N.succ (gen s1); esc := esc s1 |}
           else Some s1
       end
   end.
@@ -444,3 +469,14 @@ Definition Inv (s : state) : Prop := BankInv s /\ FixedExact s.
 (** Position of a state in the lifetime order: removals first, then the status of the record. *)
 Definition lifepos (s : state) : Z :=
   8 * Z.of_N (gen s) + match mk s with Some m => rank (st m) | None => 0 end.
+
+(** No marker, or one that is not active. *)
+Definition not_active (s : state) : Prop :=
+  match mk s with None => True | Some m => st m <> Active end.
+
+(** The largest MaxSupply in force at any point of the history [ops] run from [s]. *)
+Fixpoint max_param (s : state) (ops : list op) : Z :=
+  match ops with
+  | [] => maxsupply s
+  | o :: r => Z.max (maxsupply s) (max_param (fst (step s o)) r)
+  end.
